@@ -28,6 +28,8 @@ type PropConfig struct {
 	Family     string   `json:"family,omitempty"`     // "router": verify code generated from the current templates for an enumerated family of specs
 	FamilyQuick    int  `json:"family_sampled_quick,omitempty"`    // number of sampled programs besides the corner programs (quick tier)
 	FamilyThorough int  `json:"family_sampled_thorough,omitempty"` // ... (thorough tier)
+	FamilyNoSampled bool `json:"family_no_sampled,omitempty"` // thorough tier does not add sampled members (the proofs of some sampled shapes exceed the per-query budget)
+	FamilyOnly []string `json:"family_only"` // family packages: only functions whose key contains one of these (empty = all)
 }
 
 // StandIn is a bounded check executed on the real code.
@@ -180,6 +182,9 @@ func RunCheck(prop string, opt CheckOptions) *CheckResult {
 		}
 		defer os.RemoveAll(scratch)
 		pfam := ParamFamily()
+		if opt.Tier == "thorough" && !pc.FamilyNoSampled {
+			pfam = append(pfam, ParamFamilySampled(16)...)
+		}
 		mod, gerr := GenerateParamFamily(opt.RepoDir, pfam, scratch)
 		if gerr != nil {
 			famErr = gerr
@@ -322,6 +327,7 @@ func RunCheck(prop string, opt CheckOptions) *CheckResult {
 		found := map[string]bool{}
 		var fcs []*FuncContract
 		for _, cs := range e.Sets {
+			side := false
 			if familyDir != "" && !strings.HasPrefix(cs.PkgDir, familyDir) {
 				own := false
 				for _, p := range pc.Packages {
@@ -329,11 +335,34 @@ func RunCheck(prop string, opt CheckOptions) *CheckResult {
 						own = true
 					}
 				}
-				if !own {
-					continue // repository packages loaded beside the family only supply assumed contracts
-				}
+				// repository packages loaded beside the family supply the contracts the generated code is
+				// verified against; those the property names explicitly are verified here too (so that a
+				// change inside such a callee is noticed by THIS check), the others are assumptions of this
+				// check (verified by the check of the property they belong to)
+				side = !own
 			}
+			inFamily := familyDir != "" && strings.HasPrefix(cs.PkgDir, familyDir)
 			for _, fc := range cs.AllFuncs() {
+				if inFamily && len(pc.FamilyOnly) > 0 && !fc.Extern && !fc.Lemma {
+					keep := false
+					for _, sub := range pc.FamilyOnly {
+						if strings.Contains(e.fnKey(fc), sub) {
+							keep = true
+						}
+					}
+					if !keep {
+						continue
+					}
+				}
+				if side && !fc.Extern {
+					k := e.fnKey(fc)
+					if fc.Lemma {
+						k = e.PkgOf[fc].Pkg.Name() + ".lemma." + fc.Name
+					}
+					if !want[k] {
+						continue
+					}
+				}
 				if fc.Extern {
 					continue
 				}
@@ -345,7 +374,7 @@ func RunCheck(prop string, opt CheckOptions) *CheckResult {
 				if i := strings.Index(key, "."); i > 0 && want[key[:i]+".*"] {
 					pkgAll = true
 				}
-				if all || want[key] || pkgAll {
+				if all || want[key] || pkgAll || (inFamily && len(pc.FamilyOnly) > 0) {
 					fcs = append(fcs, fc)
 					found[key] = true
 				}
